@@ -13,6 +13,11 @@ struct Cfg { int capacity; };
 static const char* KEYS[] = {"abcd", "aXcd", "abc", "", "a-cd"};
 static const int NK = 5;
 static String K(int i) { return String(KEYS[i], strlen(KEYS[i])); }
+// the same keys as views attached to foreign memory that does not end behind them (the empty key is a zero-length view of a non-NUL byte):
+// equal keys must hash and compare alike whatever their representation
+static const char POOL[] = "abcdQaXcdQabcQQa-cdQ";
+static const int POFF[] = {0, 5, 10, 14, 15};
+static String KV(int i) { String v; v.attach(POOL + POFF[i], strlen(KEYS[i])); return v; }
 
 struct H
 {
@@ -36,9 +41,9 @@ struct H
     {
       int k = i % NK, what = i / NK;
       if(what == 0) { int v = nextVal++; { vf::Track t_; m->append(K(k), v); } int p = find(k); if(p >= 0) rm[p].second = v; else rm.push_back(std::make_pair(k, v)); }
-      else if(what == 1) { { vf::Track t_; m->remove(K(k)); } int p = find(k); if(p >= 0) rm.erase(rm.begin() + p); }
+      else if(what == 1) { { vf::Track t_; m->remove(KV(k)); } int p = find(k); if(p >= 0) rm.erase(rm.begin() + p); }
       else if(what == 2) { { vf::Track t_; s->prepend(K(k)); } bool has = false; for(size_t j = 0; j < rs.size(); ++j) if(rs[j] == k) has = true; if(!has) rs.insert(rs.begin(), k); }
-      else { { vf::Track t_; s->remove(K(k)); } for(size_t j = 0; j < rs.size(); ++j) if(rs[j] == k) { rs.erase(rs.begin() + j); break; } }
+      else { { vf::Track t_; s->remove(KV(k)); } for(size_t j = 0; j < rs.size(); ++j) if(rs[j] == k) { rs.erase(rs.begin() + j); break; } }
     }
     verify();
   }
@@ -55,6 +60,8 @@ struct H
     {
       bool inM, inS; int val = -1;
       { vf::Track t_; String key = K(k); HashMap<String, int>::Iterator it = m->find(key); inM = it != m->end(); if(inM) val = *it; inS = s->contains(key); }
+      { vf::Track t_; String view = KV(k); HashMap<String, int>::Iterator it = m->find(view); bool vm = it != m->end(); bool vs = s->contains(view);
+        vf::Untrack u_; VF_CHECK(vm == inM && vs == inS, "C02:StringKeys:representation", "lookup of '%s' as an attached view gives %d/%d, as an owned string %d/%d", KEYS[k], (int)vm, (int)vs, (int)inM, (int)inS); }
       int p = find(k); bool hs = false; for(size_t j = 0; j < rs.size(); ++j) if(rs[j] == k) hs = true;
       VF_CHECK(inM == (p >= 0) && (!inM || val == rm[p].second), "C02:StringKeys:find", "map.find('%s') wrong", KEYS[k]);
       VF_CHECK(inS == hs, "C02:StringKeys:contains", "set.contains('%s') = %d", KEYS[k], (int)inS);
